@@ -51,6 +51,12 @@ func init() {
 	setOrder(os.Getenv("VERIF_ORDER"))
 }
 
+// HangSentinel is what Tick panics with when HangPanic is set (used by the C03 explorer, whose
+// subject code has no recover); the worker uses runtime.Goexit instead.
+type HangSentinel struct{}
+
+var HangPanic bool
+
 func RegisterReset(name string, f func()) {
 	resetNames = append(resetNames, name)
 	resetFns = append(resetFns, f)
@@ -248,6 +254,9 @@ func Tick() {
 	}
 	if HangSite == "" {
 		HangSite = attribute(hangPrefix)
+	}
+	if HangPanic {
+		panic(HangSentinel{})
 	}
 	runtime.Goexit()
 }
